@@ -191,7 +191,9 @@ struct Inbox {
 impl Inbox {
     fn send(&self, m: Msg) {
         self.q.lock().unwrap().push_back(m);
-        if let Some(t) = self.thread.lock().unwrap().as_ref() {
+        // never hold a real lock across a scheduling point (unpark is one)
+        let t = self.thread.lock().unwrap().clone();
+        if let Some(t) = t {
             t.unpark();
         }
     }
@@ -619,7 +621,9 @@ fn body(prog: &Program) {
             // some helper still has work it has not been scheduled for: get out of its way. It unparks us
             // when it is done; if it blocks for good instead, every thread is blocked and that is a deadlock.
             for i in &inboxes {
-                if let Some(t) = i.thread.lock().unwrap().as_ref() {
+                // never hold a real lock across a scheduling point (unpark is one)
+                let t = i.thread.lock().unwrap().clone();
+                if let Some(t) = t {
                     t.unpark();
                 }
             }
@@ -643,7 +647,9 @@ fn body(prog: &Program) {
     // teardown: executor dropped on its home thread while helper threads may still hold wakers / handles
     world.home_idle.store(true, SeqCst);
     for i in &inboxes {
-        if let Some(t) = i.thread.lock().unwrap().as_ref() {
+        // never hold a real lock across a scheduling point (unpark is one)
+        let t = i.thread.lock().unwrap().clone();
+        if let Some(t) = t {
             t.unpark();
         }
     }
